@@ -586,3 +586,7 @@ M("m104", "C02", "R2.1", VI, "        new_values = self._unbatch_results(padded_
   "        new_values = self._unbatch_results(padded_batched_values)\n        return new_values.astype(values.dtype)\n",
   "sweep result cast back to the dtype of the incoming estimates (truncates for integer-typed estimates) - from seeded change C02")
 B("b37", ["C02", "C15", "C14"], FOREST, "        ).astype(jnp.int32)\n\n        return next_state, reward", "        ).astype(jnp.int64)\n\n        return next_state, reward", "problem state cast to another static integer dtype")
+M("m105", "C08", "R8.1", VI, "        for _ in range(max_iterations):\n            self.iteration += 1\n            new_values, conv = self._iteration_step()\n            self.values = new_values\n\n            logger.info(\n                f\"Iteration {self.iteration}: {self._convergence_desc}",
+  "        for _ in range(self.iteration, max_iterations):\n            self.iteration += 1\n            new_values, conv = self._iteration_step()\n            self.values = new_values\n\n            logger.info(\n                f\"Iteration {self.iteration}: {self._convergence_desc}",
+  "loop bound treats max_iterations as a cap on the total counter (from seeded change C08)")
+B("b38", ["C08", "C09", "C12", "C01"], RVI, "        for _ in range(max_iterations):", "        for _ in range(0, max_iterations):", "range spelled with an explicit start")
